@@ -29,9 +29,10 @@ def run(res):
     r = lib.run_harness("pay", "run", res.seed, n, res.tier, timeout=3000)
     cases = r["CASE"]
     fails = lib.coq_failures(IMPORTS, "pay_case", "check_pay", [c["coq"] for c in cases], "pay_c06")
-    mon = [c for c in cases if c["monitor_violations"]]
+    # the pay domain also carries the C10 / C11 snapshot monitors; only the C06 monitor decides here
+    mon = [c for c in cases if any(v.startswith("C06:") for v in c["monitor_violations"])]
     for c in mon[:3]:
-        res.violation("C06 fails on the implementation's own answers: %s" % c["monitor_violations"][:2],
+        res.violation("C06 fails on the implementation's own answers: %s" % [v for v in c["monitor_violations"] if v.startswith("C06:")][:2],
                       {"domain": "pay", "seed": res.seed, "channels": c["nch"], "history": c["ops"],
                        "violations": c["monitor_violations"]})
     if not mon:
